@@ -559,3 +559,51 @@ def mux_family(rng, apply):
                 srcs = [op["comp"]["name"] if i == t else i for i in srcs]
         if s["wf"] or s["st"]["save_exc"]:
             break
+
+
+# ---------------------------------------------------------------------------------------------------
+# scripted family: node indices freed by a deletion are re-used by components added later under ANOTHER, later-created source, and a
+# PMux then runs from that branch - "the oldest node" / "the lowest index" of a branch is then not its source.
+
+def index_reuse_family(rng, apply):
+    names = list(H.NAMES)
+    rng.shuffle(names)
+    serial = [100]
+
+    def comp(kind, name):
+        serial[0] += 1
+        return new_comp(kind, name, serial[0])
+
+    def add(parent, kind):
+        n = names.pop()
+        s = apply({"op": "add_comp", "parent": parent, "comp": comp(kind, n), "group": "", "rail": ""})
+        return n if s["outcome"] == "ok" else None
+    probe = apply({"op": "set_comp_phases", "name": "__nosuch__", "conf": {"names": []}})
+    first = [c[0] for c in probe["st"]["comps"] if c[1] == "SOURCE"]
+    if not first:
+        return
+    root = first[0]
+    # a little tree under the first source, to be deleted again
+    a = add(root, rng.choice(["converter", "linreg", "pswitch", "rloss"]))
+    if a is None:
+        return
+    for _ in range(rng.randint(1, 3)):
+        add(a, rng.choice(list(H.LOADS)))
+    s2 = names.pop()
+    if apply({"op": "add_source", "comp": comp("source", s2), "group": "", "rail": ""})["outcome"] != "ok":
+        return
+    if apply({"op": "del_comp", "name": a, "del_childs": True})["outcome"] != "ok":
+        return
+    # the freed (low) indices go to a branch under the LATER source
+    b = add(s2, rng.choice(["converter", "linreg", "pswitch", "rloss"]))
+    if b is None:
+        return
+    b2 = add(b, rng.choice(["converter", "pswitch", "rloss"])) if rng.random() < 0.5 else None
+    tip = b2 or b
+    ins = [tip, root] if rng.random() < 0.7 else [root, tip]
+    m = names.pop()
+    if apply({"op": "add_comp", "parent": ins, "comp": comp("pmux", m), "group": "", "rail": ""})["outcome"] != "ok":
+        return
+    add(m, rng.choice(list(H.LOADS)))
+    if rng.random() < 0.4:
+        add(tip, rng.choice(list(H.LOADS)))
